@@ -3,6 +3,7 @@ import RockitModel.Proofs.Shooting
 import RockitModel.Model.Sample
 import Mathlib.Algebra.Order.Field.Basic
 import Mathlib.Tactic.Linarith
+import RockitModel.Proofs.RKTie
 /-!
 # C08 — refined sampling and samplers interpolate the discrete solution consistently
 -/
@@ -145,5 +146,22 @@ theorem sampler_eq {K : Type} [Field K] [LE K] [DecidableLE K] (c : Ctx K) (e : 
 /-! non-vacuity: one RK4 step of x' = x from 1 with h = 1 -/
 example : densePoly (rk4Step (fun (x : ℚ) (_ : ℚ) => (x, (0:ℚ))) 1 0 1 1).coeff (1:ℚ) = 65/24 := by
   rw [rk4_dense_end _ _ _ _ _ one_ne_zero]; norm_num [rk4Step]
+
+
+/-! ### the dense-output coefficients as written in the source are the model's -/
+section source_tie
+variable {K V Q : Type} [Field K] [CharZero K] [AddCommGroup V] [Module K V] [AddCommGroup Q] [Module K Q]
+
+theorem source_dense_output_as_expected :
+    Rockit.Generated.rk4Coeff = RKTie.expectedRk4Coeff ∧ Rockit.Generated.rk4CoeffQ = RKTie.expectedRk4CoeffQ ∧
+    Rockit.Generated.eulerCoeff = [[⟨"X", 1, 1, 0, 0⟩], [⟨"k.ode", 1, 1, 0, 0⟩]] ∧ Rockit.Generated.eulerCoeffQ = [[⟨"k.quad", 1, 1, 0, 0⟩]] := by decide
+
+/-- `poly_coeff` / `poly_coeff_q` of `intg_rk` (`f0 … f3` in powers of `DT`, not `DT_control`) are `rk4Step.coeff / coeffq` -/
+theorem source_rk4_coeffs_are_model (f : V → K → V × Q) (x : V) (t0 DT DTc : K) (hDT : DT ≠ 0) :
+    RKTie.expectedRk4Coeff.map (fun ts => RKTie.interp ts (RKTie.odeVal x (RKTie.runStages (K := K) RKTie.expectedRk4StageX RKTie.expectedRk4StageT f x t0 DT DTc)) DT DTc)
+      = (rk4Step f x t0 DT DTc).coeff :=
+  (RKTie.rk4_source_coeffs_are_model f x t0 DT DTc hDT).1
+
+end source_tie
 
 end Rockit.C08
